@@ -118,4 +118,18 @@ theorem solve_interval_ok (t : ℚ) (h : 1 ≤ t) :
     linarith
   rw [if_neg this]
 
+/-! ### the interval clamp of `timedPlannerTerminationCondition(duration, interval)` -/
+
+theorem timedInterval_eq_min (d i : ℚ) : timedInterval d i = min d i := by
+  unfold timedInterval
+  by_cases h : d < i
+  · rw [if_pos h, min_eq_left (le_of_lt h)]
+  · rw [if_neg h, min_eq_right (not_lt.mp h)]
+
+/-! ### window 1: the average is the last cost -/
+
+theorem avg_window_one (c : Nat → ℚ) (k : Nat) : avg 1 c (k + 1) = c k := by
+  have h : min (k + 1) 1 = 1 := by omega
+  simp [avg, h]
+
 end OmplModel.Ptc
